@@ -23,8 +23,8 @@ MANIFEST = {
     'technique': 'deductive: VCs from the real AST of _uniqify_labels, _get_states_array, radial_distribution_between_species + an injectivity '
                  'lemma; z3/cvc5; finite-scope counter-models replayed natively; brute-force triple-loop oracle as bounded stand-in',
 }
-UNITS = ['unit_uniqify', 'unit_code_injective', 'unit_states_array', 'unit_between_species', 'unit_dep_ffill', 'unit_dep_bfill', 'unit_dep_prev_next']
-BOUNDED = ['bounded_rdf', 'bounded_purity']
+UNITS = ['unit_uniqify', 'unit_code_injective', 'unit_states_array', 'unit_between_species', 'unit_dep_ffill', 'unit_dep_bfill', 'unit_dep_prev_next', 'unit_plumbing']
+BOUNDED = ['bounded_rdf', 'bounded_purity', 'bounded_plumbing']
 META = {
     'clauses': {'C11.uniq': 'P', 'C11.code': 'P (injectivity lemma) + B (_get_states name table)', 'C11.sem': 'P given C11.uniq and C03 prev/next',
                 'C11.part': 'B', 'C11.pair': 'P (formula, bins) + A (np.histogram) ; symmetry B'},
@@ -466,3 +466,14 @@ from verif.native.purity import make_bounded as _make_purity  # noqa: E402
 from verif.props.purity_reg import REG as _PURITY_REG  # noqa: E402
 PURITY = _PURITY_REG['C11']
 bounded_purity = _make_purity('C11', PURITY)
+
+
+# plumbing around the anchored functions: forwarding contracts of the public wrappers, no state shared between calls or objects
+from verif.props import plumbing as _plumbing  # noqa: E402
+
+
+def unit_plumbing(tier):
+    return _plumbing.unit_plumbing(PROPERTY)
+
+
+bounded_plumbing = _plumbing.make_bounded(PROPERTY)
